@@ -3,9 +3,9 @@ from checklib import cbool, clist, cpair, cN
 
 ID = "C06"
 HARNESS = "c06"
-N_CASES = {"quick": 420, "thorough": 6000}
+N_CASES = {"quick": 400, "thorough": 6000}
 N_SEARCH = {"quick": 2, "thorough": 3}
-SHARD = 60
+SHARD = 200
 HAS_MODEL_OUT = True
 RULE = ("operation histories over {acquire, use, release (3 reader slots), reload new-ok / same-ok / open-error / "
         "validation-fail new / validation-fail same, reload timeout with late new / same / error completion (up to 2 "
@@ -52,11 +52,11 @@ def cand(o):
 def op_coq(o):
     k = o["k"]
     if k == "acq":
-        return "(Acquire %s)" % cnat(o.get("r", 0))
+        return "(OAcq %d)" % o.get("r", 0)
     if k == "use":
-        return "(Use %s)" % cnat(o.get("r", 0))
+        return "(OUse %d)" % o.get("r", 0)
     if k == "rel":
-        return "(Release %s)" % cnat(o.get("r", 0))
+        return "(ORel %d)" % o.get("r", 0)
     if k == "reload":
         return "(Reload %s)" % cand(o)
     if k == "tpub":
@@ -64,25 +64,25 @@ def op_coq(o):
     if k == "tfirst":
         return "ReloadTimeoutFirst"
     if k == "late":
-        return "(LateComplete %s %s)" % (cnat(o.get("i", 0)), cand(o))
+        return "(OLate %d %s)" % (o.get("i", 0), cand(o))
     if k == "shutdown":
         return "Shutdown"
     raise ValueError("unknown op " + k)
 
 
 def events(evs):
-    return clist([cpair(cnat(b), cN(o)) for b, o in evs])
+    return clist(["E %d %d" % (b, o) for b, o in evs])
 
 
 def to_coq(c):
     steps = []
     for s in c["steps"]:
-        obs = "(mkObs %s %s %s %s %s %s %s)" % (
-            events(s["events"]), cN(s["res"]), cnat(s["served"]),
-            clist([cpair(cnat(b), cpair(cN(rc), cbool(d))) for b, rc, d in s["refs"]]),
-            clist([cpair(cnat(sl), cnat(b)) for sl, b in s["pins"]]),
+        obs = "(Ob %s %s %s %s %s %s %s)" % (
+            events(s["events"]), cN(s["res"]), cN(s["served"]),
+            clist(["Rf %d %d %s" % (b, rc, cbool(d)) for b, rc, d in s["refs"]]),
+            clist(["Pn %d %d" % (sl, b) for sl, b in s["pins"]]),
             cN(s["uac"]), cN(s["dc"]))
-        steps.append(cpair(op_coq(s["op"]), obs))
+        steps.append("St %s %s" % (op_coq(s["op"]), obs))
     return "mk %s %s %s" % (cbool(c["guard"]), events(c["init"]), clist(steps))
 
 
